@@ -8,12 +8,47 @@
 
 namespace etl {
 
+namespace detail {
+// n1/d1 < n2/d2 for positive denominators without forming the products n1*d2 and n2*d1 (which
+// overflow intmax_t for large operands): compare the integer parts (floor), and when they are
+// equal compare the reciprocals of the fractional parts, exchanged.
+[[nodiscard]] constexpr auto ratio_less_impl(intmax_t n1, intmax_t d1, intmax_t n2, intmax_t d2) noexcept -> bool
+{
+    while (true) {
+        auto q1 = n1 / d1;
+        auto r1 = n1 % d1;
+        if (r1 < 0) {
+            r1 += d1;
+            --q1;
+        }
+        auto q2 = n2 / d2;
+        auto r2 = n2 % d2;
+        if (r2 < 0) {
+            r2 += d2;
+            --q2;
+        }
+        if (q1 != q2) {
+            return q1 < q2;
+        }
+        if (r1 == 0 or r2 == 0) {
+            return r1 == 0 and r2 != 0;
+        }
+        // r1/d1 < r2/d2  <=>  d2/r2 < d1/r1
+        auto const old_d1 = d1;
+        n1                = d2;
+        d1                = r2;
+        n2                = old_d1;
+        d2                = r1;
+    }
+}
+} // namespace detail
+
 /// \brief Compares two ratio objects for equality at compile-time. If the ratio
 /// R1 is less than the ratio R2, provides the member constant value equal true.
 /// Otherwise, value is false.
 /// \ingroup ratio
 template <typename R1, typename R2>
-struct ratio_less : bool_constant<(R1::num * R2::den < R2::num * R1::den)> { };
+struct ratio_less : bool_constant<detail::ratio_less_impl(R1::num, R1::den, R2::num, R2::den)> { };
 
 /// \ingroup ratio
 template <typename R1, typename R2>
